@@ -1010,7 +1010,7 @@ Definition link_top (s : state) (x : nat) : Prop :=
 
 Definition resize_ok_w (s : state) (x : nat) (a : Z) : Prop := link_top s x /\ single_moved s (rel s) x a.
 Definition enum_resize_ok_w (s : state) (e : nat) (a : Z) : Prop :=
-  (forall x, In x (erefs s e) -> resize_ok_w s x a) /\ unshared s (erefs s e).
+  (forall x, In x (erefs s e) -> resize_ok_w s x a) /\ (0 < a -> unshared s (erefs s e)).
 
 Definition ok_op_w (s : state) (o : op) : Prop :=
   match o with
